@@ -67,7 +67,7 @@ func (defvar *Defvar) adjoin(b []byte) []byte {
 	b = append(b, defvar.varName...)
 	for _, n := range defvar.children {
 		if n.newline() {
-			b = append(b, indent[:n.left()+1]...)
+			b = newlineIndent(b, n.left())
 		} else {
 			b = append(b, ' ')
 		}
